@@ -1273,9 +1273,17 @@ def rule_cached_position_reset(db: ProgramDB) -> List[Instance]:
     for name, impls in sorted(names.items()):
         cleared = False
         for r in ([root_reset] if root_reset else []):
-            src = unparse(r.node)
-            if "cache_clear" in src and name in src:
-                cleared = True
+            handles = set()
+            for x in own_nodes(r.node):
+                if isinstance(x, ast.Assign) and len(x.targets) == 1 and isinstance(x.targets[0], ast.Name) and isinstance(x.value, ast.Call) \
+                        and dotted(x.value.func) == "getattr" and name in unparse(x.value) and "cache_clear" in unparse(x.value):
+                    handles.add(x.targets[0].id)
+            for x in own_nodes(r.node):
+                if isinstance(x, ast.Call):
+                    if isinstance(x.func, ast.Attribute) and x.func.attr == "cache_clear" and name in unparse(x.func.value):
+                        cleared = True
+                    if isinstance(x.func, ast.Name) and x.func.id in handles:
+                        cleared = True
         out.append(inst("CACHED-POSITION-RESET", HOLDS if cleared else VIOLATION, impls[0], f"{name}[memo dropped by the reset]",
                         f"{len(impls)} memoised implementation(s) read self._parent_; SymbolicExpression._reset_only_my_cache_ drops the memo" if cleared else
                         f"{len(impls)} implementation(s) of `{name}` are memoised with lru_cache and read self._parent_, and no reset drops the memo: "
